@@ -34,11 +34,22 @@ CLAIMS = {
          'plus model/implementation comparison of the read-call and grow_to logs).',
     technique='Coq proof (corollary of the refinement theorems for next(); fill_buf lemma) + pairwise differential run across configurations',
     ref='5 C03'),
+ 'C04': dict(
+    text='Theorems of C04fa.v (FASTA; 8): ANY history of single reads, owned reads, record-set reads, exact-count reads (n >= 1) into two slots, '
+         're-iteration, position queries and seeks to record positions on one reader refines the abstract cursor machine over fa_spec (Spec/Cursor.v): '
+         'exactly once and in order (C04_exactly_once), sets non-empty, exact counts = min n remaining, a refilled set shows only the new batch, the other '
+         'slot is unchanged, position after a set read = next unread record; for every input, capacity >= 3, chunking and never-refusing policy. '
+         'FASTQ: the same statement is covered by the correspondence run only so far (proof under construction). Tie: random histories <= 12 ops and five '
+         'fixed switch patterns over all strings up to length 5-7, judged by the cursor-machine oracle; set re-iteration compared.',
+    technique='Coq refinement proof to an abstract cursor machine (induction over histories; FASTA) + differential run with cursor oracle (both formats)',
+    ref='5 C04'),
  'C05': dict(
     text='Theorems C05_fasta_position_after_next / C05_fastq_position_after_next: the position reported after the k-th call is the (line, byte) '
-         'the whole-input specification assigns to the k-th item, for every configuration (corollary of the refinement theorems). Seeking and '
-         'positions after record-set reads are covered by the correspondence run so far (theorems for them are under construction: seeks to every '
-         'saved position from random histories, targets inside and outside the buffer, judged by the Spec cursor machine).',
+         'the whole-input specification assigns to the k-th item, for every configuration (corollary of the refinement theorems); C05fa.v (FASTA; 6): '
+         'seeking to the position of any record from any reachable state - in-buffer shortcut or real seek - restores the stream from that record, the '
+         'offset invariant position.byte = start + window offset holds in every reachable state, position after a set read = next unread record. FASTQ seeks: '
+         'covered by the correspondence run so far (seeks to every saved position from random histories, targets inside and outside the buffer, judged by the '
+         'Spec cursor machine).',
     technique='Coq proof (positions: corollary of refinement) + differential run with cursor-machine oracle for seeks',
     ref='5 C05'),
  'C10': dict(
